@@ -278,8 +278,15 @@ class Engine:
     def fixed_len_ax(self, t):
         k = self.known_len(t)
         if k is not None: self.ax(('len', t.get_id()), slen(t) == k)
+    def hex_bridge(self, raw, hx):
+        """tie a concretely evaluated hex pair to the uninterpreted symbols (so that symbolic terms equal to them behave)"""
+        lr, lh = self.lit(raw), self.lit(hx)
+        self.ax(('hexbridge', hx), hexenc(lr) == lh, hexdec(lh) == lr, validhex(lh))
     def hexenc(self, a):
-        if a.c is not None: return StrV(c=a.c.encode('latin-1').hex())
+        if a.c is not None:
+            hx = a.c.encode('latin-1').hex()
+            self.hex_bridge(a.c, hx)
+            return StrV(c=hx)
         ta = a.t
         if is_app_of(ta, 'hexdec') and ('canon', ta.arg(0).get_id()) in self.P.axdone: return StrV(t=ta.arg(0))
         t = hexenc(ta)
@@ -289,8 +296,12 @@ class Engine:
     def hexdec_ok(self, a):
         """(validity condition, decoded value) of hex.DecodeString"""
         if a.c is not None:
-            if len(a.c) % 2 or any(ch not in '0123456789abcdefABCDEF' for ch in a.c): return False, None
-            return True, StrV(c=bytes.fromhex(a.c).decode('latin-1'))
+            if len(a.c) % 2 or any(ch not in '0123456789abcdefABCDEF' for ch in a.c):
+                self.ax(('nothex', a.c), z3.Not(validhex(self.lit(a.c))))
+                return False, None
+            raw = bytes.fromhex(a.c).decode('latin-1')
+            if a.c == a.c.lower(): self.hex_bridge(raw, a.c)
+            return True, StrV(c=raw)
         ta = a.t
         if is_app_of(ta, 'hexenc'): return True, self.tostr(ta.arg(0))
         t = hexdec(ta)
